@@ -106,14 +106,21 @@ def run_slave(env):
 
 
 def check_slave(ctx, quick):
-    mj, mf = (2, 9) if quick else (3, 10)
-    res = tlc.run(ctx, "Slave", slave_cfg(mj, mf), name="slave", timeout=1200, coverage=True)
-    if not res.ok:
-        ctx.machinery("Slave.tla violates %s %s\n%s" % (res.kind, res.name, res.out[-1200:]))
-    missing = tlc.uncovered_actions(res, ["PullJob", "PullFails", "Stop", "Sleep", "Dispatch", "Finish"])
-    if missing:
-        ctx.machinery("actions never taken in Slave.tla: %s" % missing)
-    cases = res.emitted
+    # (jobs, failed pulls): 9 failures reach the back-off cap (0.5 s ... 64 s, 64 s); the number of
+    # behaviours grows like C(fails + jobs + 1, jobs + 1) * 10^jobs, so the 3-job plan has fewer failures
+    plans = [(2, 9)] if quick else [(2, 9), (3, 4)]
+    cases = []
+    nstates = ntrans = 0
+    for mj, mf in plans:
+        res = tlc.run(ctx, "Slave", slave_cfg(mj, mf), name="slave_%d_%d" % (mj, mf), timeout=1800, coverage=True, heap="8g")
+        if not res.ok:
+            ctx.machinery("Slave.tla violates %s %s\n%s" % (res.kind, res.name, res.out[-1200:]))
+        missing = tlc.uncovered_actions(res, ["PullJob", "PullFails", "Stop", "Sleep", "Dispatch", "Finish"])
+        if missing:
+            ctx.machinery("actions never taken in Slave.tla: %s" % missing)
+        cases += res.emitted
+        nstates += res.distinct
+        ntrans += res.generated
     bad = 0
     for c in cases:
         try:
@@ -127,7 +134,7 @@ def check_slave(ctx, quick):
                 ctx.drift("Slave", "qs.slave.main does not follow Slave.tla: call %d is %r, the specification says %r (environment %s)"
                           % (k, got[k] if k < len(got) else None, c["calls"][k] if k < len(c["calls"]) else None,
                              json.dumps(c["env"])[:200]), {"env": c["env"], "predicted": c["calls"], "observed": got})
-    ctx.cover(states=res.distinct, transitions=res.generated, traces_validated_against_impl=len(cases) - bad)
+    ctx.cover(states=nstates, transitions=ntrans, traces_validated_against_impl=len(cases) - bad)
     longest = max(cases, key=lambda c: sum(1 for x in c["calls"] if x["c"] == "sleep"))
     ctx.set_cover(slave_behaviours_replayed=len(cases), slave_behaviours_differing=bad,
                   slave_longest_backoff=[0.5 * 2 ** x["e"] for x in longest["calls"] if x["c"] == "sleep"])
